@@ -161,13 +161,19 @@ func (c *Case) PkgPath(p *Pkg) string {
 }
 
 func renderDecl(b *strings.Builder, d *Decl, cur string) {
-	for _, l := range d.Doc {
-		b.WriteString("//" + l + "\n")
+	if !(d.Kind == "struct" && d.Grouped) {
+		for _, l := range d.Doc {
+			b.WriteString("//" + l + "\n")
+		}
 	}
 	switch d.Kind {
 	case "struct":
 		if d.Grouped {
+			// the doc comment sits inside the group, on the member it documents
 			fmt.Fprintf(b, "type (\n")
+			for _, l := range d.Doc {
+				b.WriteString("\t//" + l + "\n")
+			}
 			fmt.Fprintf(b, "\t%s struct {\n", d.Name)
 		} else {
 			fmt.Fprintf(b, "type %s struct {\n", d.Name)
